@@ -7,6 +7,8 @@ import (
 	"math/rand"
 	"unicode"
 	"unicode/utf8"
+
+	"github.com/charlievieth/strcase"
 )
 
 // fold-relevant code points of every width and cross-width orbit, plus
@@ -34,6 +36,32 @@ var badTokens = []string{
 
 var padLens = []int{0, 0, 0, 1, 2, 3, 4, 5, 6, 7, 8, 9, 10, 11, 12, 13, 14, 15, 16, 17, 18, 28, 29, 30, 31, 32, 33, 34, 60, 61, 62, 63, 64, 65, 66, 100, 300}
 var padToks = []string{"x", "-", "k", "世", "a", "K", " ", "é"}
+
+// deviants: pairs of code points on which the repository's CaseFold table departs from the
+// toolchain's SimpleFold orbits (a pair the table equates but the toolchain does not, or the
+// reverse).  Empty on a correct table, so the corpus is unchanged there; on a defective table
+// they are fed into the alphabets, so that the defect shows up as a concrete input of every
+// property that speaks of fold-equality, not only of C03.
+var deviants [][2]rune
+var deviantsDone bool
+
+func findDeviants() {
+	if deviantsDone {
+		return
+	}
+	deviantsDone = true
+	for r := rune(0); r <= unicode.MaxRune && len(deviants) < 64; r++ {
+		cf := strcase.VerifCaseFold(r)
+		if orbitMin(cf) != orbitMin(r) {
+			deviants = append(deviants, [2]rune{r, cf})
+		}
+		for _, m := range orbitOf(r)[1:] {
+			if strcase.VerifCaseFold(m) != cf {
+				deviants = append(deviants, [2]rune{r, m})
+			}
+		}
+	}
+}
 
 type Gen struct {
 	rng *rand.Rand
@@ -79,6 +107,13 @@ func (g *Gen) alphabet(stream int) []string {
 			if unicode.IsLetter(r) {
 				out = append(out, string(r^0x20))
 			}
+		}
+	}
+	findDeviants()
+	if len(deviants) > 0 && (stream == streamValid || stream == streamIll) && g.chance(0.4) {
+		d := deviants[g.intn(len(deviants))]
+		if utf8.ValidRune(d[0]) && utf8.ValidRune(d[1]) {
+			out = append(out, string(d[0]), string(d[1]))
 		}
 	}
 	if stream == streamIll {
